@@ -148,7 +148,29 @@ def malformed_variants():
     out.append(("M11-input-to-missing-variable", "warns", m, dict(inputs={"p1/rate/nope": np.linspace(0, 1, 5)})))
     out.append(("M12-input-to-missing-node", "warns", m, dict(inputs={"px/rate/r_in": np.linspace(0, 1, 5)})))
     out.append(("M13-update-var-missing-variable", "warns", m, dict(update={"p1/rate/nope": 3.0})))
+    # an edge whose template has two parallel terminal operators ("exactly one output operator ... per edge"), whether or not the two
+    # operators call their output variable the same; the one-operator edge is the control
+    out.append(("M15-edge-one-terminal-operator-control", "returns", dict(direct="edge-terminals"), dict(direct="edge-terminals", second=None)))
+    for second in ("m_b", "m_out"):
+        out.append((f"M15-edge-two-terminal-operators-second-writes-{second}", "raises", dict(direct="edge-terminals", second=second),
+                    dict(direct="edge-terminals", second=second)))
     return out
+
+
+def direct_template(opts):
+    """Models the MDL does not describe, written against the public API."""
+    from pyrates import OperatorTemplate, NodeTemplate, EdgeTemplate, CircuitTemplate
+    assert opts["direct"] == "edge-terminals"
+    op = OperatorTemplate(name="rate", path=None, equations=["r' = -r/tau + c + r_in"], variables={"r": "output(0.1)", "tau": 1.0, "c": 1.0, "r_in": "input(0.0)"})
+    node = NodeTemplate(name="lin_pop", path=None, operators=[op])
+    ga = OperatorTemplate(name="gain_a", path=None, equations=["m_out = ka * x_a"], variables={"m_out": "output(0.0)", "ka": 2.0, "x_a": "input(0.0)"})
+    ops, attrs = [ga], {"weight": 1.0, "two_gain/gain_a/x_a": "source"}
+    if opts.get("second"):
+        ops.append(OperatorTemplate(name="gain_b", path=None, equations=[f"{opts['second']} = kb * x_b"],
+                                    variables={opts["second"]: "output(0.0)", "kb": 3.0, "x_b": "input(0.0)"}))
+        attrs["two_gain/gain_b/x_b"] = "source"
+    edge = EdgeTemplate(name="two_gain", path=None, operators=ops)
+    return CircuitTemplate(name="net", path=None, nodes={"p1": node, "p2": node}, edges=[("p1/rate/r", "p2/rate/r_in", edge, attrs)])
 
 
 def malformed_case(c):
@@ -158,7 +180,7 @@ def malformed_case(c):
     try:
         with warnings.catch_warnings(record=True) as w:
             warnings.simplefilter("always")
-            tpl = mdl.build_templates(model)
+            tpl = direct_template(opts) if opts.get("direct") else mdl.build_templates(model)
             if opts.get("apply_nodes_only"):
                 for nt in tpl.nodes.values():
                     nt.apply()
